@@ -129,9 +129,9 @@ pub(crate) fn remove_or_compress_too_old_logfiles_impl(
         } else if index >= log_limit {
             #[cfg(feature = "compress")]
             {
-                // compress, if not yet compressed
-                if let Some(extension) = file.extension() {
-                    if extension != "gz" {
+                // compress, if not yet compressed (also files without suffix)
+                {
+                    if file.extension().map_or(true, |extension| extension != "gz") {
                         let mut compressed_file = file.clone();
                         match compressed_file.extension() {
                             Some(oss) => {
